@@ -87,7 +87,30 @@ func genRound(c *fw.Ctx, g *lab.PathGen, version int64, cur map[string][]byte, g
 	return rd, committed
 }
 
+// genFatRound: one merged transaction inserting n values on random 8-character paths over the full hex alphabet,
+// so that a single save carries several hundred changed nodes (more than one store batch if the save is chunked).
+func genFatRound(c *fw.Ctx, version int64, cur map[string][]byte, n int) (rRound, map[string][]byte) {
+	r := c.Rng
+	next := lab.CopyContent(cur)
+	var tx rTxn
+	for i := 0; i < n; i++ {
+		b := make([]byte, 8)
+		for j := range b {
+			b[j] = "0123456789abcdef"[r.Intn(16)]
+		}
+		v := []byte(fmt.Sprintf("fat%d/%d", version, i))
+		tx.ops = append(tx.ops, c02op{path: string(b), val: v})
+		next[string(b)] = v
+	}
+	tx.merge = true
+	c.Count("fat_rounds", 1)
+	return rRound{version: version, txns: []rTxn{tx}}, next
+}
+
 func (rd rRound) String() string {
+	if len(rd.txns) == 1 && len(rd.txns[0].ops) > 100 {
+		return fmt.Sprintf("round v%d: [fat transaction: %d inserts on random 8-char paths, merge]", rd.version, len(rd.txns[0].ops))
+	}
 	var sb strings.Builder
 	fmt.Fprintf(&sb, "round v%d:", rd.version)
 	for i, tx := range rd.txns {
@@ -212,8 +235,15 @@ func runC04(c *fw.Ctx) {
 		return o
 	}
 	crashPoints := 0
+	fatAt := int64(-1)
+	if r.Intn(32) == 0 { // chosen by the case PRNG so that fat histories spread over all worker shards
+		fatAt = 1 + int64(r.Intn(nrounds))
+	}
 	for v := int64(1); v <= int64(nrounds); v++ {
 		rd, next := genRound(c, g, v, cur, grave)
+		if v == fatAt {
+			rd, next = genFatRound(c, v, cur, 280+r.Intn(200))
+		}
 		c.Tracef("%s", rd.String())
 		grocksdb.CopyDisk(disk, tmp+"/pre")
 		w0 := ctl.Writes()
@@ -559,17 +589,17 @@ func init() {
 		ID:    "C04",
 		Level: "fault_enumeration",
 		Rule: "each case is a history of 3..10 rounds on a persistent store (real PNodeDB over the logging/crashing grocksdb stand-in). A round = block trie layered over the store at the previous saved root, 1..4 child transactions (1..6 inserts/deletes each, including delete-then-recreate of " +
-			"identical content, re-creation of content deleted in earlier rounds, unchanged re-writes) merged or discarded, then SaveChanges(includeDeletes=false) and RecordDeadNodes; random PruneBelowVersion in between. After each save every retained root is re-read on a re-opened store " +
+			"identical content, re-creation of content deleted in earlier rounds, unchanged re-writes) merged or discarded, then SaveChanges(includeDeletes=false) and RecordDeadNodes; random PruneBelowVersion in between; about every 32nd history contains one fat round (280..480 inserts, several hundred changed nodes in one save). After each save every retained root is re-read on a re-opened store " +
 			"(HasMissingNodes, lookups, Iterate, raw stored bytes through the harness' parser). For EVERY prefix length i=0..W of the save's physical write stream the round is re-executed from a copy of the pre-round disk with the store crashing after i writes; after restart every earlier " +
 			"retained root must be fully readable and re-executing + re-saving the round must give the same root and a complete state. non-trivial/distinct = distinct (history, round, crash index, root) points",
 		Cases: func(tier string) int {
 			if tier == "thorough" {
 				return 48000
 			}
-			return 2400
+			return 2000
 		},
 		Run:        runC04,
-		Floors:     map[string]int64{"histories": 2000, "rounds": 10000, "crash_points": 30000, "roots_reread": 30000, "prunes": 1000, "recreate_same_txn": 1000, "recreate_from_graveyard": 1000, "max:save_stream_writes": 2},
+		Floors:     map[string]int64{"histories": 1800, "rounds": 10000, "crash_points": 30000, "roots_reread": 30000, "prunes": 1000, "recreate_same_txn": 1000, "recreate_from_graveyard": 1000, "max:save_stream_writes": 2, "fat_rounds": 30},
 		Exhaustive: nil,
 		Assumptions: []string{
 			"the store is modelled as a sorted KV store with atomic write batches and process-crash durability of completed writes (wo.SetSync(false)); OS-crash loss of unsynced WAL is out of scope",
